@@ -35,7 +35,7 @@ def all_cases(tier):
                 if light: continue
                 for mode in ("fan_in", "fan_out"):
                     for nl in NONLIN:
-                        for a in ((0, 0.2, math.sqrt(5.0)) if nl == "leaky_relu" else (0,)):
+                        for a in ((0, 0.2, math.sqrt(5.0)) if (nl == "leaky_relu" or (mode == "fan_in" and dt == "float32")) else (0,)):
                             out.append({"init": "kaiming_uniform_", "shape": list(s), "dtype": dt, "rg": rg, "args": {"a": a, "mode": mode, "nonlinearity": nl}})
                             out.append({"init": "kaiming_normal_", "shape": list(s), "dtype": dt, "rg": rg, "args": {"a": a, "mode": mode, "nonlinearity": nl}})
     # defaults
